@@ -99,6 +99,10 @@ def run(repo: Repo, rep: Report, tier: str) -> None:
             rep.ok("R7.1", sub, "no swallowing handler", fn.loc())
 
     # ---------------------------------------------------------------- R7.2 status keys
+    if not any(dotted(c.func) == "parse_response" for c in calls_in(po.node)):
+        from sa.flatten import flatten as _fl72
+
+        po = _fl72(po)  # the per-operation work was split into helpers of the module: written out
     OL = Locals(po.node)
     calls = [c for c in calls_in(po.node) if dotted(c.func) == "parse_response"]
     rep.require(len(calls) >= 1, "R7.2: parse_operations no longer calls parse_response (anchor)")
@@ -405,6 +409,10 @@ def rule_method_filter_total(repo: Repo, rep, rule: str = "R7.8") -> None:
         raise AnalysisError("anchor vanished: enum HTTPMethod")
     members = [t.id for st in enum_cls.node.body if isinstance(st, ast.Assign) for t in st.targets if isinstance(t, ast.Name)]
     rep.require(len(members) >= 7, f"{rule}: only {len(members)} HTTPMethod members found (floor 7)")
+    if not any(isinstance(x, ast.Subscript) and dotted(x.value) == "HTTPMethod" for x in ast.walk(po.node)):
+        from sa.flatten import flatten as _fl78
+
+        po = _fl78(po)
     L = _L(po.node)
     cfg = CFG(po.node)
     dom = cfg.dominators()
